@@ -348,11 +348,16 @@ def run_mapcoord(c):
     pts = np.array([[_fr(x) for x in p] for p in c["points"]], dtype=np.float32)      # (B, rank)
     out = dict(c)
     out["int_dtype"] = bool(c.get("int_dtype"))
+    # int_axes: axes whose coordinates are all whole numbers are passed as integer-typed arrays (node positions as integers)
+    ints = [k for k in (c.get("int_axes") or []) if np.all(pts[:, k] == np.round(pts[:, k]))]
+
+    def conv(x, k):
+        return jnp.asarray(np.asarray(x).astype(np.int32)) if k in ints else jnp.asarray(x)
     if c.get("batched", True):
-        coords = [jnp.asarray(pts[:, k]) for k in range(pts.shape[1])]
+        coords = [conv(pts[:, k], k) for k in range(pts.shape[1])]
         res = np.asarray(map_coordinates(arr, coords)).ravel()
     else:
-        res = np.array([float(map_coordinates(arr, [jnp.asarray(x) for x in p])) for p in pts])
+        res = np.array([float(map_coordinates(arr, [conv(x, k) for k, x in enumerate(p)])) for p in pts])
     out["obs"] = [MDL.enc(x, quant_den=c.get("quant", 1024)) for x in res]
     return out
 
